@@ -26,6 +26,7 @@ EXPLANATION = (
     "histories and OS behaviour are not decided."
     ' (R5) no class of the InverterError family is a subclass of an exception class that a handler of the protocol layer catches as a network error (OSError, CancelledError, TimeoutError); call-arity TypeErrors are exception sources; a failure kind that no longer reaches its counting handler in _read_from_socket is a violation.'
     ' Indexing text decoded from a response at a fixed position is an IndexError source unless a length test guards it.'
+    " (R6) no method of the protocol classes calls a method / reads an attribute on self.<attr> right after a test found it unset, on any path including the exception handlers; an argument whose inferred type cannot match the parameter's annotation is a TypeError source."
 )
 
 DOCUMENTED_EXPLICIT = ("ValueError", "NotImplementedError")
@@ -60,6 +61,8 @@ def check(ctx: Ctx, rep: Report):
     rep.rule("C09.R2", "no exception escapes an event-loop callback (InvalidStateError unless dominated by a not-done() test)", 10)
     rep.rule("C09.R4", "the request is published (self.command, self.response_future bound) before the transport write that can synchronously call error_received", 2)
     rep.rule("C09.R5", "no InverterError class is a subclass of an exception class the network-error handlers catch", 4)
+    rep.rule("C09.R6", "no method of the protocol layer uses an attribute of self it has just found unset (AttributeError on None)", 1)
+    r6_none(ctx, rep)
     rep.rule("C09.R3", "_read_from_socket resets the failure counter on success, increments it once before every RequestFailedException and passes it on; execute is reached only through it", 5)
     mr = net_mayraise(ctx)
     inverr = prog.cls("InverterError")
@@ -173,6 +176,27 @@ def is_known_name(ctx: Ctx, fn, call: ast.Call) -> bool:
     except Exception:
         return True
     return not ct.funcs or all(is_known(g, ctx.prog) for g in ct.funcs)
+
+
+def r6_none(ctx: Ctx, rep: Report):
+    from .proto import none_derefs, proto_classes as _pcs
+    prog = ctx.prog
+    fns, seen = [], set()
+    for ci in list.__iter__(_pcs(ctx)):
+        for c in prog.mro(ci):
+            if isinstance(c, ClassInfo):
+                for m in c.methods.values():
+                    if m.qualname not in seen:
+                        seen.add(m.qualname)
+                        fns.append(m)
+    n = 0
+    for fn in fns:
+        for p, node, what in none_derefs(ctx, fn):
+            n += 1
+            rep.violation("C09.R6", "none-deref:%s:%s" % (fn.short, norm(node)[:50]), fn.loc(node),
+                          "%s evaluates %s on a path on which it has just found %s unset [path %s]: AttributeError on None, an internal exception on every request that takes this path" % (
+                              fn.short, norm(node)[:60], what, p.describe(6)))
+    rep.ok("C09.R6", "none-deref:scan", "goodwe/protocol.py", "%d methods of the protocol classes followed: %d uses of an attribute found unset" % (len(fns), n))
 
 
 def r5(ctx: Ctx, rep: Report):
